@@ -15,6 +15,9 @@ that access is bounds-checked against n like any other; decode of arbitrary byte
         exactly that many bytes writes all of them and nothing else (C15 (a) on the parsed object).
         Fixed-size kinds have no length discovery: the precondition is n >= the library's own *_get_marshalled_length(compressed).
   parse:fq12-io                    the REAL Fq12/Fq6/Fq2::read_big_endian on an n-byte buffer (n >= 576 symbolic) over 48-byte Fq::read_big_endian tokens
+  parse-beyond:<kind>:<enc>:checked=<c>   (Params / SecretKey) the complement of parse:*'s bound: length discovery reports r > lmax slots, r SYMBOLIC up to
+        INT_MAX (a negative count other than -1 is itself a violation); the slot array is an object of symbolic size r * sizeof(slot); unmarshal's slot
+        loop is cut after 2 iterations; every buffer read / destination write of the header and of those iterations is a solver VC against n / r
   lengthfn:<kind>:<enc>            *_unmarshalled_length on the n-byte buffer reads inside [0, n) for every n >= 1 (it may only look at byte 0)
   align:<kind>:<enc>:<direction>   every access made by unmarshal / by the re-marshal satisfies the alignment the IR declares for it although the
         buffer is only 1-aligned.  A finding is reported with the key  S7:FreeSlotMarshalled-idx-align:<function>  (other misalignments:
@@ -120,6 +123,70 @@ def ob_parse(kname, comp, checked, lmax):
         st["paths"], st["badlen"], st["rejected"], st["accepted"], sorted(st["ls"]), len(W.I.align_events)))
 
 
+K_BEYOND = 2      # slot-loop iterations explored when the reported slot count exceeds lmax
+
+
+def ob_parse_beyond(kname, comp, checked, lmax):
+    """the case the parse:* obligations exclude: length discovery reports r > lmax slots (r stays SYMBOLIC, any value up to INT_MAX).  The slot array
+    is an object of symbolic size r * sizeof(slot); unmarshal's slot loop is cut when its header is reached for the (K+1)-th time; every buffer
+    read (offset + width <= n) and every destination write (inside the object / the r-slot array) of that prefix is a solver VC.  A reported
+    count that is negative but not -1 is a violation by itself (no caller can size an array from it)."""
+    from engine import loopcut
+    kind = BY_NAME[kname]
+    W = World(TAG)
+    I = W.I
+    key = "parse-beyond:%s:%s:checked=%d" % (kname, fname(comp), checked)
+    n, fb = z3.BitVec("n", 64), z3.BitVec("buf[0]", 8)
+    I.assumptions = [z3.UGE(n, 1), z3.ULE(n, NMAX)]
+    fn = W.P.fn[W.P.find1(r"bool embedded_pairing::wkdibe::%s::unmarshal<%s>\(.*\)" % (kind.struct.split("::")[-1], "true" if comp else "false"))]
+    heads = sorted(set(h for _, h in loopcut.back_edges(fn)))
+    if len(heads) != 1:
+        raise Inconclusive("%s has %d loops, expected the slot loop only" % (W.P.demangled[fn.name][:60], len(heads)))
+    visits = [0]
+
+    def hook(I_, f, block, prev, regs):
+        if f is fn and block == heads[0]:
+            visits[0] += 1
+            if visits[0] > K_BEYOND:
+                raise eir.LoopCut(f, block, prev, regs)
+        return None
+    I.loop_hook = hook
+    st = {"paths": 0, "cut": 0, "rejected": 0, "accepted": 0}
+
+    def once():
+        visits[0] = 0
+        del I.codec[:]
+        buf = Obj("buf", n, "arg", 1, True)
+        buf.lazy = "buf"
+        out, stale = marsh.new_dest(W, kind)
+        I.branch(fb != 0)
+        r = as_bv(call(W, kind, "set_length", Ptr(out, 0), Ptr(buf, 0), n, int(comp)), 32)
+        I.check_vc(z3.Or(r == MINUS1, r >= 0), "length", "length discovery reports a negative slot count other than -1")
+        I.path.pc.append(z3.And(z3.UGT(r, lmax), z3.ULE(r, 0x7fffffff)))          # the complement of parse:*'s bound
+        if not I.feasible(z3.BoolVal(True)):
+            raise eir.PathAbort()
+        lnow = as_bv(I.load_bytes(out, kind.off(W.P, kind.var[0]), 4), 32)
+        I.check_vc(lnow == r, "stale", "set_length reported r slots but the object's slot count is different")
+        arr = Obj("out.slots", z3.ZeroExt(32, r) * z3.BitVecVal(marsh.elem_stride(W, kind), 64), "arg", 16)
+        I.store_cell(out, kind.off(W.P, kind.var[2]), 8, Ptr(arr, 0))
+        try:
+            ret = c_unmarshal(W, kind, out, buf, comp, checked)
+        except eir.LoopCut:
+            return "cut"
+        return "accepted" if I.branch(ret) else "rejected"
+    try:
+        for path, what in I.explore(once, 1024):
+            st["paths"] += 1
+            st[what] += 1
+    except MemViolation as e:
+        raise as_violation(key, e, "%s after length discovery reported more than %d slots" % (kind.fn("unmarshal"), lmax))
+    if not st["cut"] or not st["rejected"]:
+        raise Inconclusive("vacuity guard: outcomes %r" % (st,))
+    return W.stats(st["paths"], [kind.fn("set_length"), kind.fn("unmarshal")],
+                   "reported count symbolic in (%d, 2^31): %d paths, %d reach the cut after %d slot iterations, %d rejected by a decode before, %d returned true" % (
+                       lmax, st["paths"], st["cut"], K_BEYOND, st["rejected"], st["accepted"]))
+
+
 def ob_lengthfn(kname, comp):
     kind = BY_NAME[kname]
     W = World(TAG)
@@ -209,6 +276,8 @@ def register(chk):
         for comp in marsh.forms(kind):
             for checked in ((1,) if kind.nocomp else (1, 0)):
                 add("parse:%s:%s:checked=%d" % (kind.name, fname(comp), checked), ob_parse, kind.name, comp, checked, lmax if kind.var else 0)
+                if kind.var:
+                    add("parse-beyond:%s:%s:checked=%d" % (kind.name, fname(comp), checked), ob_parse_beyond, kind.name, comp, checked, lmax)
             if kind.var:
                 add("lengthfn:%s:%s" % (kind.name, fname(comp)), ob_lengthfn, kind.name, comp)
             for d in ("unmarshal", "marshal"):
@@ -225,6 +294,8 @@ def main(argv=None):
     chk.explanation = __doc__.strip()
     chk.bounds = ["buffer length n: every value in [1, 2^20] (symbolic); contents: every byte string; first byte: every value",
                   "slot counts reported by length discovery: -1 and 0..%d (enumerated by the solver; the slot loops are unrolled, no loop cut beyond)" % lmax,
+                  "for l > %d only the header and the first %d slot iterations are explored (parse-beyond:*: l symbolic up to INT_MAX, slot loop cut, no re-marshal, "
+                  "no inductive argument for the remaining iterations)" % (lmax, K_BEYOND),
                   "alignment obligations: slot counts 0..2 (the offsets of all slots are congruent modulo 4)",
                   "x86-64 IR (configuration A); the thumbv6m / aarch64 IR of the same sources is not re-run here"]
     chk.trusted = ["contract of Encoding::decode / Fq::read_big_endian: they access exactly Encoding::size / 48 bytes at `this` / the given pointer with byte accesses "
